@@ -78,6 +78,10 @@ if TYPE_CHECKING:
 logger = logging.getLogger(__name__)
 
 
+def _is_running(task: Optional[asyncio.Task]) -> bool:
+    return task is not None and not task.done()
+
+
 class _RequestFlag(Flag):
     SHARES_CHANGE = auto()
     TRANSFER_CHANGE = auto()
@@ -364,6 +368,9 @@ class TransferManager(BaseManager):
             logger.exception("error aborting transfer before removal : %s", transfer)
         finally:
             self._transfers.remove(transfer)
+            # The transfer could not be aborted from its current state but
+            # still has a task in flight: nothing may run for a removed transfer
+            await asyncio.gather(*transfer.cancel_tasks(), return_exceptions=True)
             await self._event_bus.emit(TransferRemovedEvent(transfer))
 
         self.request_management_cycle(_RequestFlag.TRANSFER_CHANGE)
@@ -548,6 +555,11 @@ class TransferManager(BaseManager):
 
         # Downloads will just get remotely queued
         for download in downloads:
+            # A previous attempt is still in flight: starting a second one
+            # would orphan the first (only the task in the slot is cancelled)
+            if _is_running(download._remotely_queue_task):
+                continue
+
             download._remotely_queue_task = asyncio.create_task(
                 self._queue_remotely(download),
                 name=f'queue-remotely-{task_counter()}'
@@ -558,6 +570,9 @@ class TransferManager(BaseManager):
 
         # Uploads should be initialized and uploaded if possible
         for upload in uploads[:free_upload_slots]:
+            if _is_running(upload._transfer_task):
+                continue
+
             upload._transfer_task = asyncio.create_task(
                 self._initialize_upload(upload),
                 name=f'initialize-upload-{task_counter()}'
@@ -608,6 +623,12 @@ class TransferManager(BaseManager):
         queued_downloads: list[Transfer] = []
         queued_uploads: list[Transfer] = []
         for transfer in self._transfers:
+            # A state change is in progress (abort / pause waiting for the
+            # tasks it cancelled): leave the transfer alone, the transition
+            # requests a new cycle when it completes
+            if transfer._state_lock.locked():
+                continue
+
             # Get the user object from the user manager, if the user is tracked
             # this user object will be returned. Otherwise a new user object is
             # created, but not assigned to the user manager, whose status is
@@ -1412,9 +1433,10 @@ class TransferManager(BaseManager):
                     reason = FailReason.CANCELLED
                 elif current_state == TransferState.COMPLETE:
                     reason = FailReason.COMPLETE
-                elif transfer.is_processing():
+                elif transfer.is_processing() or _is_running(transfer._transfer_task):
                     # Needs investigation, currently don't do anything when the
-                    # transfer is already being processed
+                    # transfer is already being processed (or an initialization
+                    # task is still in flight: a second one would orphan it)
                     return
                 else:
                     # All good to download
